@@ -1,6 +1,7 @@
 package main
 
 import (
+	"context"
 	"errors"
 	"flag"
 	"fmt"
@@ -53,6 +54,10 @@ func catLagRun(tr *tracer.T, rng *rand.Rand) {
 		case err == nil:
 		case errors.Is(err, serrors.ErrTableExists):
 			res = "exists"
+		case serrors.IsSafeToRetry(err) || errors.Is(err, context.DeadlineExceeded):
+			// the in-process cluster turned the request away or did not answer in time (loaded machine): whether the
+			// table exists now is not known - not an observation about the catalogue
+			die("create %s through node %d: %v", name, node+1, err)
 		default:
 			res = "error: " + err.Error()
 		}
